@@ -333,7 +333,7 @@ REG["C19"] = dict(
 FOOTER = H(module="mutation", replay="solver-only", enc=["Memvid::rewrite_toc_footer", "CommitFooter::encode", "CommitFooter::decode"], sym="generation, 5 TOC bytes",
            bound="footer at 100, 50-byte WAL, previous length 300 (file shrinks to the footer end); TOC serialisation replaced by an arbitrary 5-byte blob")
 FOOTER2 = H(module="mutation", replay="solver-only", enc=["Memvid::rewrite_toc_footer"], sym="generation, 5 TOC bytes", bound="footer at 20, 200-byte WAL from 16 (length clamped to the WAL end)")
-RECOVER1 = H(module="mutation", replay="solver-only", enc=["Memvid::recover_wal"], sym="checkpoint sequence, pending-insert counter", bound="1 pending record, 1 committed frame; two consecutive recoveries")
+RECOVER1 = H(module="mutation", replay="solver-only", enc=["Memvid::recover_wal"], sym="checkpoint sequence, pending-insert counter, log region size (64 KiB - 64 MiB), pending bytes, header checkpoint position (any value inside the region, incl. wrapped logs)", bound="1 pending record, 1 committed frame; two consecutive recoveries")
 RECOVER_ASSUME = ["EmbeddedWal::records_after / record_checkpoint, Memvid::apply_records / rebuild_indexes, persist_header and File::sync_all are ghosts; rebuild_indexes persists the TOC and then the header (as the real one does in its last three statements); the durable (TOC frames, header wal_sequence) pair is tracked after every persisting call",
                   "a header write is atomic (single 4 KiB write)"]
 NO_APPLY = "Memvid::apply_records itself (the body that turns a record into a frame) could NOT be executed symbolically: even with one concrete tombstone record CBMC explores the insert arm with opaque state (2.9-4.2 M symex steps) and runs out of memory (> 40 GB); see DESIGN.md section 8. Replay is therefore covered only as wiring (every pending record handed to apply_records exactly once, checkpoint only after it succeeded)."
@@ -393,12 +393,12 @@ RECOVER_ASSUME = ["EmbeddedWal::records_after / record_checkpoint, Memvid::apply
 REG["C04"] = dict(
     cbmc_args=MEMCMP,
     harnesses={
-        "c04_recover_uninterrupted_2": H("thorough", module="mutation", replay="solver-only", enc=["Memvid::recover_wal"], sym="checkpoint sequence, pending-insert counter", bound="2 pending record(s), 1 committed frame; two consecutive recoveries"),
-        "c04_recover_uninterrupted_1": H(module="mutation", replay="solver-only", enc=["Memvid::recover_wal"], sym="checkpoint sequence, pending-insert counter", bound="1 pending record(s), 1 committed frame; two consecutive recoveries"),
-        "c04_recover_nothing_pending": H(module="mutation", replay="solver-only", enc=["Memvid::recover_wal"], sym="checkpoint sequence, pending-insert counter", bound="0 pending record(s), 1 committed frame; two consecutive recoveries"),
-        "c04_recover_tombstone_only": H(module="mutation", replay="solver-only", enc=["Memvid::recover_wal"], sym="checkpoint sequence", bound="1 pending delete, 1 committed frame"),
-        "c04_recover_crash_points": H(module="mutation", replay="solver-only", expect="known", enc=["Memvid::recover_wal"], sym="checkpoint sequence; crash point = any persisting call", bound="1 pending record"),
-        "c04_recover_step_failure": H(module="mutation", replay="solver-only", enc=["Memvid::recover_wal"], sym="which step fails (apply / index rebuild), checkpoint sequence", bound="1 pending record"),
+        "c04_recover_uninterrupted_2": H("thorough", module="mutation", replay="solver-only", enc=["Memvid::recover_wal"], sym="checkpoint sequence, pending-insert counter, log region size (64 KiB - 64 MiB), pending bytes, header checkpoint position (any value inside the region, incl. wrapped logs)", bound="2 pending record(s), 1 committed frame; two consecutive recoveries"),
+        "c04_recover_uninterrupted_1": H(module="mutation", replay="solver-only", enc=["Memvid::recover_wal"], sym="checkpoint sequence, pending-insert counter, log region size (64 KiB - 64 MiB), pending bytes, header checkpoint position (any value inside the region, incl. wrapped logs)", bound="1 pending record(s), 1 committed frame; two consecutive recoveries"),
+        "c04_recover_nothing_pending": H(module="mutation", replay="solver-only", enc=["Memvid::recover_wal"], sym="checkpoint sequence, pending-insert counter, log region size (64 KiB - 64 MiB), pending bytes, header checkpoint position (any value inside the region, incl. wrapped logs)", bound="0 pending record(s), 1 committed frame; two consecutive recoveries"),
+        "c04_recover_tombstone_only": H(module="mutation", replay="solver-only", enc=["Memvid::recover_wal"], sym="checkpoint sequence, log region size (64 KiB - 64 MiB), pending bytes, header checkpoint position (any value inside the region, incl. wrapped logs)", bound="1 pending delete, 1 committed frame"),
+        "c04_recover_crash_points": H(module="mutation", replay="solver-only", expect="known", enc=["Memvid::recover_wal"], sym="checkpoint sequence; crash point = any persisting call, log region size (64 KiB - 64 MiB), pending bytes, header checkpoint position (any value inside the region, incl. wrapped logs)", bound="1 pending record"),
+        "c04_recover_step_failure": H(module="mutation", replay="solver-only", enc=["Memvid::recover_wal"], sym="which step fails (apply / index rebuild), checkpoint sequence, log region size (64 KiB - 64 MiB), pending bytes, header checkpoint position (any value inside the region, incl. wrapped logs)", bound="1 pending record"),
         "c05_step_open_old_and_pending": dict(REG["C05"]["harnesses"]["c05_step_open_old_and_pending"]),
     },
     assumptions=RECOVER_ASSUME,
@@ -462,6 +462,10 @@ REG["C40"]["out"] = [o for o in REG["C40"]["out"] if "ensure_wal_capacity" not i
 REG["C19"]["harnesses"]["c19_open_helpers_never_create"] = H(module="lock", replay="solver-only", enc=["FileLock::open_and_lock", "FileLock::open_read_only"], sym="which helper, whether the path exists (open fails or not)",
                                                              bound="one call; OpenOptions builder methods and open are ghosts that record what was asked of the OS")
 REG["C19"]["assumptions"] += ["OpenOptions::{create, create_new, truncate, append, open} and FileLock::acquire_with_mode are ghosts in c19_open_helpers_never_create"]
+
+REG["C30"]["harnesses"]["c30_time_index_arbitrary_3"] = H("thorough", module="time_index", panic_is_violation=True, enc=["time_index::read_track"], sym="60 arbitrary bytes declared as a 3-entry track", bound="3 entries")
+REG["C38"]["harnesses"]["c38_simd_two_hot_len31"] = H("thorough", module="simd", features=["simd"], enc=["simd::l2_distance_squared_simd (simd feature build)"], sym="two distinct positions, two integer differences in [-8, 8]", bound="length 31 (three chunks + remainder 7)")
+REG["C38"]["harnesses"]["c38_simd_two_hot_len40"] = H("thorough", module="simd", features=["simd"], enc=["simd::l2_distance_squared_simd (simd feature build)"], sym="as above", bound="length 40 (five chunks)")
 
 REG["C34"] = dict(
     cbmc_args=MEMCMP,
